@@ -77,6 +77,9 @@ def check(run):
     part = [c for c in cases if not c.get("error") and any(st.get("render") for st in c["ctl"])][: (120 if run.tier == "quick" else 2500)]
     judge_render(run, part, arb.evaluate(run, part, fn="c04_render_case", extra=render_term, tag="arbrender"))
     run.cov["render_level_histories"] = len(part)
+    dpart = [c for c in cases if not c.get("error")][: (100 if run.tier == "quick" else 2000)]
+    arb.judge_delivery(run, dpart, arb.evaluate(run, dpart, fn="ctl_case", extra=arb.ctl_term, tag="arbctl"), "C04",
+                       "the composition is then computed from an object set that is not the current one")
     for c in [x for x in cases if has_composition(x)][:2]:
         run.sample(arb.summarize_case(c))
     run.cov["rule"] = ("histories of the arb harness (see C01): masters and minions sharing paths, several namespaces, routes referenced by bare name and namespace/name, prefix / exact / "
